@@ -11,6 +11,7 @@ from gymnasium import spaces
 
 
 IMG = (6, 6, 3)      # H, W, C
+DICT_SPACE = spaces.Dict({"a": spaces.Box(-1.0, 1.0, (3,), np.float32), "b": spaces.Box(-1.0, 1.0, (2,), np.float32)})
 
 
 def _space(kind):
@@ -28,17 +29,20 @@ def _reward(kind, a, t):
 class CountEnv:
     """plain (non-vectorised) Gymnasium-style environment"""
 
-    def __init__(self, log, ep_len=4, act="discrete", obs_dim=4, image=False):
+    def __init__(self, log, ep_len=4, act="discrete", obs_dim=4, image=False, dictobs=False):
         self.log = log
         self.L = ep_len
         self.act = act
+        self.dictobs = dictobs
         self.shape = IMG if image else (obs_dim,)        # image: channels LAST (the loop is run with swap_channels=True)
-        self.observation_space = spaces.Box(-1.0, 1.0, self.shape, np.float32)
+        self.observation_space = DICT_SPACE if dictobs else spaces.Box(-1.0, 1.0, self.shape, np.float32)
         self.action_space = _space(act)
         self.t = 0
         self.d = obs_dim
 
     def _obs(self):
+        if self.dictobs:
+            return {"a": np.full((3,), 0.125 * (self.t % 8), dtype=np.float32), "b": np.full((2,), 0.25, dtype=np.float32)}
         return np.full(self.shape, 0.125 * (self.t % 8), dtype=np.float32)
 
     def reset(self, seed=None, options=None):
@@ -63,20 +67,24 @@ class CountEnv:
 class CountVecEnv:
     """vectorised environment (gymnasium.vector style interface, auto-reset), sub-env i has episode length L+i"""
 
-    def __init__(self, log, num_envs, ep_len=4, act="discrete", obs_dim=4, image=False):
+    def __init__(self, log, num_envs, ep_len=4, act="discrete", obs_dim=4, image=False, dictobs=False):
         self.log = log
         self.num_envs = num_envs
         self.L = ep_len
         self.act = act
         self.d = obs_dim
+        self.dictobs = dictobs
         self.shape = IMG if image else (obs_dim,)
-        self.single_observation_space = spaces.Box(-1.0, 1.0, self.shape, np.float32)
+        self.single_observation_space = DICT_SPACE if dictobs else spaces.Box(-1.0, 1.0, self.shape, np.float32)
         self.single_action_space = _space(act)
         self.observation_space = spaces.Box(-1.0, 1.0, (num_envs,) + self.shape, np.float32)
         self.action_space = self.single_action_space
         self.t = np.zeros(num_envs, dtype=np.int64)
 
     def _obs(self):
+        if self.dictobs:
+            return {"a": np.stack([np.full((3,), 0.125 * (t % 8), dtype=np.float32) for t in self.t]),
+                    "b": np.full((self.num_envs, 2), 0.25, dtype=np.float32)}
         return np.stack([np.full(self.shape, 0.125 * (t % 8), dtype=np.float32) for t in self.t])
 
     def reset(self, seed=None, options=None):
